@@ -2,4 +2,5 @@ import EdzedProofs.Basic
 import EdzedProofs.Counter
 import EdzedProofs.DataLemmas
 import EdzedProofs.ErrorReg
+import EdzedProofs.Filters
 import EdzedProofs.Simulate
